@@ -2,6 +2,7 @@ package main
 
 import (
 	"go/ast"
+	"go/token"
 	"go/types"
 	"sort"
 	"strings"
@@ -30,6 +31,7 @@ func init() {
 		Explain: "Per-peer state reclamation decided as an inventory with obligations: (R13.1) every struct field of the module that is a map keyed by peer.ID (directly or as the inner map of a map keyed by topic/message/IP) is enumerated from the type information on every run; each needs a reclaim site (delete of the key / of the inner entry, or replacement of the map) that is reachable in the VTA call graph from a departure root (handleDeadPeers, onClosedIncomingStream, the stream handler's deferred cleanup, the blacklist arm's callees), a periodic root (heartbeat, scorer/gater/backoff/time-cache background loops), a completion root (DeliverMessage/RejectMessage fan-out, for message-scoped maps) or its consumer (pending/queue-like maps); a new per-peer field without one fails; named exemptions: direct peers (operator configuration), blacklist state (policy); (R13.2) guard symmetry: the feature(...) guards required on every call path to a reclaimer are a subset of those on the paths to every creator of the same field (otherwise entries created for some protocol versions are never reclaimed); (R13.3) entries are created only for peers that can be reclaimed: the pending-control buffer is written only behind a successful lookup of the peer's queue, and mesh admission requires gs.peers membership (shared R07.5, known finding F8); (R13.4) protection pairing: every removal of a peer from a mesh map reaches tracer.Prune or tagTracer.untagMeshPeer for that topic (connection-manager protection released), the tag tracer's Graft/Prune map to Protect/Unprotect with the same tag; (R13.5) stream bookkeeping: the stream handler's deferred cleanup removes its inboundStreams entry when it is the current one and reports the closed stream iff it reported the new one; the extension state's closed-stream handlers delete their entries; router/scorer/gater departure handlers (shared R07.5, R10.4, R05.6) remove the peer; (R13.6) the gater deletes a peer's entry whenever its outbound stream closed, independently of the connection count it shares with other peers behind the same IP. (R13.7) every RejectMessage after ValidateMessage uses a reason on which tagTracer.RejectMessage releases the near-first entry. (R13.8) releasing partial-message peer state is not behind conditions on the handshake maps or the feature table. NOT decided: that retention periods elapse and sweeps run (timing); entries re-created by late validation callbacks after departure.",
 		Assume:  []string{"VTA call graph over-approximates calls through stored function values", "roots are invoked by the event loop / their goroutines as analysed under C05/C14"},
 		Mutants: []Mutant{
+			{Name: "reopen-gives-up-silently", File: "comm.go", Old: "\tcase <-time.After(backoff):\n\t\tp.handleNewPeer(ctx, pid, outgoing)\n", New: "\tcase <-time.After(backoff):\n\t\tif p.host.Network().Connectedness(pid) != network.Connected {\n\t\t\treturn\n\t\t}\n\t\tp.handleNewPeer(ctx, pid, outgoing)\n", Expect: "R13.9"},
 			{Name: "partial-release-behind-handshake", File: "extensions.go", Old: "\tif es.myExtensions.PartialMessages {\n\t\tes.partialMessagesExtension.OnClosedOutboundStream(id)", New: "\tif es.myExtensions.PartialMessages && es.peerExtensions[id].PartialMessages {\n\t\tes.partialMessagesExtension.OnClosedOutboundStream(id)", Expect: "R13.8"},
 			{Name: "partial-release-behind-feature", File: "gossipsub.go", Old: "\tgs.extensions.OnClosedOutboundStream(p)\n\tdelete(gs.peers, p)", New: "\tif gs.feature(GossipSubFeatureExtensions, gs.peers[p]) {\n\t\tgs.extensions.OnClosedOutboundStream(p)\n\t}\n\tdelete(gs.peers, p)", Expect: "R13.8"},
 			{Name: "post-validation-drop-keeps-nearfirst", File: "pubsub.go", Old: "\t\t\t\tp.logger.Debug(\"dropping validated message from blacklisted peer\", \"peer\", msg.ReceivedFrom)\n\t\t\t\tp.tracer.RejectMessage(msg, RejectValidationIgnored)\n", New: "\t\t\t\tp.logger.Debug(\"dropping validated message from blacklisted peer\", \"peer\", msg.ReceivedFrom)\n\t\t\t\tp.tracer.RejectMessage(msg, RejectBlacklstedPeer)\n", Expect: "R13.7"},
@@ -456,6 +458,7 @@ func runC13(c *RuleCtx) {
 	}
 	checkValidationStateReleased(c)
 	checkPartialStateReleaseUnguarded(c)
+	checkReopenAnswers(c)
 	c.Min["R13.1"] = 30
 	c.Min["R13.2"] = 15
 	c.Min["R13.3"] = 4
@@ -756,4 +759,83 @@ func checkPartialStateReleaseUnguarded(c *RuleCtx) {
 		c.Undecided("R13.8", "partial-message release chain", "inventory", nil, "the chain from the router's departure hook to the extension's OnClosedOutboundStream was not found: "+itoa(n)+" links")
 	}
 	c.Min["R13.8"] = 2
+}
+
+// R13.9: handleDeadPeers installs a fresh queue in p.peers before it starts the goroutine that reopens the stream.
+// That goroutine owes the event loop an answer: the stream (newPeerStream) or the failure (newPeerError, which
+// removes the queue). Every way out of handleNewPeerWithBackoff / handleNewPeer therefore hands over one of the two,
+// except where the instance is shutting down (the context's Done arm).
+func checkReopenAnswers(c *RuleCtx) {
+	p := c.P
+	n := 0
+	answers := func(f *Func) func(ast.Node) bool {
+		return func(nd ast.Node) bool {
+			if p.NodeCalls(f, nd, "(*PubSub).handleNewPeer") {
+				return true
+			}
+			found := false
+			ast.Inspect(nd, func(x ast.Node) bool {
+				if s, ok := x.(*ast.SendStmt); ok {
+					if v := p.R(f).Val(s.Chan); v.IsField("PubSub.newPeerError") || v.IsField("PubSub.newPeerStream") {
+						found = true
+					}
+				}
+				return !found
+			})
+			return found
+		}
+	}
+	for _, name := range []string{"(*PubSub).handleNewPeerWithBackoff", "(*PubSub).handleNewPeer"} {
+		f := c.MustFn("R13.9", name)
+		if f == nil {
+			continue
+		}
+		g := p.Graph(f)
+		// shutdown: edges into a clause that receives from a context's Done channel
+		cut := cutSet{}
+		inspectNoLit(f.Body, func(x ast.Node) bool {
+			cc, ok := x.(*ast.CommClause)
+			if !ok || cc.Comm == nil {
+				return true
+			}
+			isDone := false
+			ast.Inspect(cc.Comm, func(y ast.Node) bool {
+				if u, ok := y.(*ast.UnaryExpr); ok && u.Op == token.ARROW {
+					if v := p.R(f).Val(u.X); v != nil && v.Kind == "call" && strings.HasSuffix(v.Name, ".Done") {
+						isDone = true
+					}
+				}
+				return !isDone
+			})
+			if !isDone {
+				return true
+			}
+			if body := g.ClauseBody(cc); body != nil {
+				for _, blk := range g.C.Blocks {
+					for si, succ := range blk.Succs {
+						if succ == body {
+							cut[Edge{blk, si}] = true
+						}
+					}
+				}
+			}
+			return true
+		})
+		n++
+		ok, at := g.MustPass(g.Entry(), PassOpts{Cut: cut}, answers(f))
+		why := "every path hands the event loop the stream or the failure"
+		bad := ""
+		if !ok {
+			bad = "a path through " + f.Name + " returns without sending on newPeerStream or newPeerError (and not because the instance is shutting down)"
+			if at != nil && len(at.Nodes) > 0 {
+				bad += ", ending near " + p.Pos(at.Nodes[len(at.Nodes)-1])
+			}
+			bad += ": the queue that handleDeadPeers / handlePendingPeers put into p.peers for this attempt is never removed, and the peer cannot be added again when it reconnects"
+		}
+		c.Check(ok, "R13.9", f.Name, "a stream attempt always answers the event loop", f.Decl, why, bad)
+	}
+	if n < 2 {
+		c.Undecided("R13.9", "stream attempts", "inventory", nil, "handleNewPeer / handleNewPeerWithBackoff not found")
+	}
+	c.Min["R13.9"] = 2
 }
